@@ -1,0 +1,80 @@
+//go:build verif
+// +build verif
+
+package tensor
+
+import (
+	"sync/atomic"
+	"unsafe"
+)
+
+// Verification hooks (see /verif/DESIGN.md §4). Only compiled with `-tags verif`.
+
+const (
+	verifBorrowInts = iota
+	verifReturnInts
+	verifBorrowDense
+	verifReturnDense
+)
+
+// VerifPoolEventKinds names the event kinds delivered to the pool hook.
+var VerifPoolEventKinds = [...]string{"BorrowInts", "ReturnInts", "BorrowDense", "ReturnDense"}
+
+type verifHook struct {
+	f func(kind int, ptr uintptr, l, c int)
+}
+
+var verifPoolHook atomic.Value // of verifHook
+
+// VerifSetPoolHook installs (or, with nil, removes) a callback that observes every pool borrow/return.
+func VerifSetPoolHook(f func(kind int, ptr uintptr, l, c int)) {
+	verifPoolHook.Store(verifHook{f})
+}
+
+func verifPoolEvent(kind int, ptr uintptr, l, c int) {
+	if h, ok := verifPoolHook.Load().(verifHook); ok && h.f != nil {
+		h.f(kind, ptr, l, c)
+	}
+}
+
+func verifIntsPtr(is []int) uintptr {
+	if cap(is) == 0 {
+		return 0
+	}
+	return uintptr(unsafe.Pointer(&is[:1][0]))
+}
+
+func verifDensePtr(t *Dense) uintptr { return uintptr(unsafe.Pointer(t)) }
+
+// VerifInfo is a read-only snapshot of the private bookkeeping of a *Dense.
+type VerifInfo struct {
+	OldZero       bool
+	OldShape      []int
+	OldStrides    []int
+	TransposeWith []int
+	ViewOf        uintptr
+	MaskIsSoft    bool
+	Flag          MemoryFlag
+	ShapePtr      uintptr
+	StridesPtr    uintptr
+	ShapeCap      int
+	StridesCap    int
+}
+
+// VerifIntrospect returns a copy of the private bookkeeping of t. It never mutates t.
+func VerifIntrospect(t *Dense) VerifInfo {
+	vi := VerifInfo{
+		OldZero:    t.old.IsZero(),
+		ViewOf:     t.viewOf,
+		MaskIsSoft: t.maskIsSoft,
+		Flag:       t.flag,
+		ShapePtr:   verifIntsPtr(t.shape),
+		StridesPtr: verifIntsPtr(t.strides),
+		ShapeCap:   cap(t.shape),
+		StridesCap: cap(t.strides),
+	}
+	vi.OldShape = append(vi.OldShape, t.old.shape...)
+	vi.OldStrides = append(vi.OldStrides, t.old.strides...)
+	vi.TransposeWith = append(vi.TransposeWith, t.transposeWith...)
+	return vi
+}
